@@ -5,7 +5,7 @@ import ast
 
 from ..consteval import ConstEval, NotConst
 from ..core import AnalysisError, own_nodes, short, unparse
-from ..rules import dsp, live
+from ..rules import dsp, live, shape
 from . import common
 
 EXPLANATION = (
@@ -13,7 +13,8 @@ EXPLANATION = (
   "map while iterating a live view of it, so no division, paragraph or span is skipped while regions and paragraphs are merged; "
   "(DSP-flatten) every element kind the content model allows under a p has a branch in both text flatteners (annotation kinds "
   "rt/rtc/rp are a tabled exclusion), so no kind of text container is silently dropped; (SEQ-end) in both writers the end of cue i is "
-  "the time of sequence entry i+1 and None for the last entry, evaluated over an abstract 3-entry sequence; (FIN-default) an open last "
+  "the time of sequence entry i+1 and None for the last entry, evaluated over an abstract 3-entry sequence; (FIN-hull) the cached content interval of a document is the hull of its content intervals (unbounded absorbing), so no "
+  "interval with visible text is skipped; (ORD-docorder) paragraphs are collected in one in-order pass; (FIN-default) an open last "
   "cue ends exactly 10 s after its own begin and blank open cues are removed. Decides these clauses, not the text/ordering behaviour."
 )
 RULE_TEXT = ("one rule instance per (function, live loop), per (flattener, element kind), per writer for SEQ-end / FIN-default; "
@@ -157,3 +158,10 @@ def run(ctx):
   check_flatteners(ctx)
   check_seq_end(ctx)
   check_finish(ctx)
+  # cues are produced from the cached sequence: the cache must not hide documents with visible content
+  shape.check_content_interval_hull(ctx)
+  # paragraphs and divisions are merged in document order
+  gp = ctx.ix.func("ttconv.filters.isd.merge_paragraphs:ParagraphsMergingISDFilter._get_paragraphs")
+  shape.check_inorder_accumulation(ctx, gp, "paragraphs", gp.params[1])
+  pr = ctx.ix.func("ttconv.filters.isd.merge_paragraphs:ParagraphsMergingISDFilter.process")
+  shape.check_inorder_accumulation(ctx, pr, "paragraphs", "original_divs")
